@@ -13,5 +13,5 @@ for k in (0, 2):
 HARNESSES += [SRC(x, 0, tiers=('thorough',)) for x in ('mRmCmR', 'mCRmCR', 'SmCmrR', 'mRmR^CmRm')]
 ASSUMPTIONS = c15.ASSUMPTIONS + ['source types: custom data sources only; timer, read, write and signal sources (manager thread, epoll registration order) are outside this check',
    'dispatch_source_cancel_and_wait is not exercised']
-LEVEL_TEXT = 'placeholder'
-LEVEL_NOTE = 'placeholder'
+LEVEL_TEXT = 'Tier H on data sources driven through the real API: cancel from a client thread at every point of the life cycle, twice, before activation, from the event handler and from a registration handler that merges and cancels: the cancel handler runs exactly once, on the target queue, after the last event handler returned; no event handler starts after it; after a cancel issued from the handler / an item on the target queue the event handler is not invoked again.'
+LEVEL_NOTE = 'Custom data sources only: timer/read/write/signal sources, the manager thread, epoll registration order and dispatch_source_cancel_and_wait are NOT covered (the seeded fd-source change C16_m2 is outside this check).'
